@@ -24,7 +24,8 @@ ASSUMPTIONS = ["generated matrix kernels: proved from their text under the model
                "MOVQ ADDQ SHRQ TESTQ DECQ JZ JNZ RET VZEROUPPER VMOVDQU(64) VPSHUFB VPXOR VXORPD VPAND VPSRLQ VPBROADCASTB "
                "VBROADCASTSD VBROADCASTF32X2 VGF2P8AFFINEQB(.BCST)) - that semantics and the Plan 9 text parser are trusted and "
                "cross-checked by the lane-exhaustive execution on this CPU; the hand-written multiply/xor kernels and the "
-               "Leopard butterfly kernels are tied by execution only",
+               "Leopard butterfly kernels are proved the same way (C08_asm_leo_sound, C08_asm_hand_sound) with a richer machine "
+               "model (undefined flags, SUBQ/JA loops, legacy SSE, VPTERNLOGD)",
                "only the instruction sets of this CPU are executed (it has SSE2, SSSE3, AVX2, AVX512F/BW/VL/DQ, GFNI)"]
 TRUSTED = ["instruction semantics RSV.Model.Asm.stepInstr and the kernel-text parser (vlib/asm.py, RSV.Model.Asm.parseKernel)"]
 
@@ -61,7 +62,7 @@ def gen_ops(tier, rng):
                 for no in dims:
                     for (start, extra) in ([(64, 256), (200, 300)] if tier == "quick" else [(64, 256), (200, 300), (32, 64), (4096, 640), (1, 130)]):
                         size = start + extra + rng.choice([0, 0, 17])
-                        stop = rng.choice([size, size, size - rng.randint(0, 70)])
+                        stop = max(start, rng.choice([size, size, size - rng.randint(0, 70)]))   # the codec never passes stop < start
                         ops.append((f"kern {fam} {xor} {ni} {no} {size} {start} {stop} {rng.randrange(1, 1<<30)}", {"cat": f"start-{fam}"}))
     # hand-written multiply / xor kernels behind galMulSlice / sliceXor
     for flags in ["-", "2", "3", "a", "5", "g", "x", "23a5gx", "3a"]:
@@ -110,6 +111,17 @@ def execute(ops, ctx):
     if len(klines) != 600 or len(nplines) != 400:
         problems.append(f"expected 600 + 400 generated kernels in galois_gen_amd64.s / galois_gen_nopshufb_amd64.s, "
                         f"the extractor found {len(klines)} + {len(nplines)}")
+    # the remaining amd64 kernels (C08_asm_leo_sound / C08_asm_hand_sound): Leopard butterflies and multiplies, xor slices,
+    # the hand-written galMul* kernels - 81 in galois_gen_amd64.s + galois_amd64.s, 19 in the nopshufb file
+    other = asm.lines2() + asm.lines2([os.path.join(asm.REPO, "galois_gen_nopshufb_amd64.s")])
+    if len(other) != 100:
+        problems.append(f"expected 81 + 19 Leopard / xor / hand-written kernels, the extractor found {len(other)}")
+    for l, v in zip(other, C.run_ops(ctx["driver"], ["asmcheck " + l for l in other])):
+        res["evaluations"] += 1
+        if v == "ok":
+            res["nontrivial"].add(("asm-other", l.split()[0]))
+        else:
+            problems.append(f"assembly checker rejects {l.split()[0]}: {v}")
     npv = C.run_ops(ctx["driver"], ["asmcheck " + l for l in nplines])
     for l, v in zip(nplines, npv):
         res["evaluations"] += 1
@@ -118,8 +130,8 @@ def execute(ops, ctx):
         else:
             problems.append(f"assembly checker rejects {l.split()[0]} of the nopshufb build: {v}")
     verdicts = C.run_ops(ctx["driver"], ["asmcheck " + l for l in klines])
-    res.setdefault("dist", {})["asm-kernels-checked"] = len(klines) + len(nplines)
-    res.setdefault("extra", {})["asm_kernels"] = len(klines) + len(nplines)
+    res.setdefault("dist", {})["asm-kernels-checked"] = len(klines) + len(nplines) + len(other)
+    res.setdefault("extra", {})["asm_kernels"] = len(klines) + len(nplines) + len(other)
     rng = random.Random(ctx["seed"])
     for l, v in zip(klines, verdicts):
         res["evaluations"] += 1
